@@ -138,6 +138,9 @@ def candidates(rng, t, opts, st, depth):
             A((0.7, ['scan', 'acc_box_mut', 'box', mut_red(), None]))
             A((0.7, ['scan', 'acc_tbox_mut', 'tbox', mut_red(), None]))
         A((1, ['scan', 'acc_digest', 'zero', red(), None]))
+        if t == 'i':
+            A((0.8, ['scan', 'acc_npvec', 'npvec', red(), None]))
+        A((0.8, ['scan', 'acc_append_any', rng.choice(['list_partial', 'list_callable_object', 'list_lru']), red(), None]))
         if not no_completion:
             A((1, ['scan', 'acc_append_new', 'list', rng.random() < 0.5, 'term_mark']))
         A((2, ['count', red()]))
